@@ -27,6 +27,9 @@ type Connection struct {
 	connection net.Conn
 	context    Context
 
+	// The session which was created for this connection
+	session Session
+
 	// Used to buffer reads
 	readBuffer *bytes.Buffer
 
@@ -115,8 +118,8 @@ func NewConnection(connection net.Conn, context Context) *Connection {
 	}
 
 	// Setup new session for the connection
-	session := NewSession(conn)
-	context.SetSessionForConnection(session, conn)
+	conn.session = NewSession(conn)
+	context.SetSessionForConnection(conn.session, conn)
 
 	return conn
 }
@@ -264,8 +267,11 @@ func (con *Connection) Read(b []byte) (int, error) {
 func (con *Connection) Close() error {
 	log.Debug.Println("Close connection and remove session")
 
-	// Remove session from the context
-	con.context.DeleteSessionForConnection(con.connection)
+	// Remove the session from the context – unless it was replaced by the session of a
+	// newer connection with the same addresses, which is still in use
+	if con.context.GetSessionForConnection(con.connection) == con.session {
+		con.context.DeleteSessionForConnection(con.connection)
+	}
 
 	return con.connection.Close()
 }
